@@ -246,6 +246,37 @@ pub fn run(ctx: &Ctx) -> Report {
     let cases = ctx.tier.pick(1_500, 60_000);
     let r = run_tapes(ctx, "patterns", cases, 120, |tape, stats| check_patterns(ctx, tape, stats));
     report.absorb(r);
+    // edited core programs (every C03 operator and the free-form clause edits) that check still accepts
+    let cases = ctx.tier.pick(300, 15_000);
+    let r = run_tapes(ctx, "mutants", cases, 700, |tape, stats| {
+        let (texts, stdin) = crate::props::c03::mutant_texts(ctx, tape, &cfg, 6);
+        for (text, label) in texts {
+            let path = thread_dir(ctx).join("mutant.zy");
+            std::fs::write(&path, &text).expect("write case");
+            let session = CompilerSession::default();
+            match drive::analyze_executable(&session, &path) {
+                | Analyzed::Executable(exe, _) => {
+                    stats.eval();
+                    let run = drive::run_executable(exe, &stdin, &[], 200_000);
+                    if let RunEnd::Stuck { msg, file, line } = &run.end {
+                        let short: String = msg.chars().take(48).collect();
+                        return Err(Fail::new(
+                            format!("stuck[{short}]@{}", file.rsplit("/repo/").next().unwrap_or(file)),
+                            "progress, exit code, returned value, host I/O, or the division trap",
+                            format!("interpreter went wrong: `{msg}` at {file}:{line} after {} steps", run.steps),
+                        )
+                        .with(json!({"mutation": label, "source": text[text.find("begin\n").unwrap_or(0)..].to_string()})));
+                    }
+                    stats.count("mutant:accepted-and-ran");
+                    stats.nontrivial(hash_of(&text));
+                }
+                | Analyzed::Panic(_) => stats.count("mutant:analysis-panic(C10)"),
+                | _ => stats.count("mutant:not-accepted(discarded)"),
+            }
+        }
+        Ok(())
+    });
+    report.absorb(r);
     let cases = ctx.tier.pick(600, 20_000);
     let r = run_tapes(ctx, "records", cases, 60, |tape, stats| crate::props::records::check_records(ctx, tape, stats, true));
     report.absorb(r);
@@ -263,6 +294,13 @@ pub fn replay(ctx: &Ctx, doc: &Value) -> Result<(), Fail> {
     let mut stats = Stats::new();
     if doc["stage"] == "records" {
         return crate::props::records::replay(ctx, doc, true);
+    }
+    if doc["stage"] == "mutants" {
+        // re-decide from the recorded source
+        if let Some(src) = doc["rendered"]["source"].as_str() {
+            let text = format!("{}{src}", print::prelude(&ctx.repo_root));
+            return check_probe(ctx, "mutant", &text[print::prelude(&ctx.repo_root).len()..], &mut stats);
+        }
     }
     if doc["stage"] == "probes" {
         for (n, b) in PROBES {
